@@ -32,6 +32,7 @@ type switchboard struct {
 
 	conns      sync.Map
 	connsCount uint32
+	addConnM   sync.Mutex // serialises addConn so that ids are dense and published after the store
 	randPool   sync.Pool
 
 	broken uint32
@@ -54,9 +55,14 @@ func makeSwitchboard(sesh *Session) *switchboard {
 var errBrokenSwitchboard = errors.New("the switchboard is broken")
 
 func (sb *switchboard) addConn(conn net.Conn) {
-	connId := atomic.AddUint32(&sb.connsCount, 1) - 1
-	common.VerifPoint("switchboard.addConn:between")
+	// the conn must be in the map before the incremented count is published, otherwise a
+	// concurrent pickRandConn can draw an id that is not stored yet and break a healthy session
+	sb.addConnM.Lock()
+	connId := atomic.LoadUint32(&sb.connsCount)
 	sb.conns.Store(connId, conn)
+	common.VerifPoint("switchboard.addConn:between")
+	atomic.AddUint32(&sb.connsCount, 1)
+	sb.addConnM.Unlock()
 	go sb.deplex(conn)
 }
 
